@@ -113,7 +113,7 @@ class C05(Check):
                    'pairs within max(1e-9 relative, 1e-11 deg) of L changes the partition',
                    'the mutual consistency of the four arrays is checked on every case, decided or not',
                    'the order in which next[] visits the members of a group is not prescribed by the property']
-    REQUIRED_COUNTERS = ('wide_link_cases', 'wide_link_ge_180_cases', 'wide_link_over_16_in_one_chunk', 'dense_cases', 'dense_cases_above_512_in_one_chunk', 'boundary_ra_points', 'ra360_calls', 'flavour_calls', 'flavour_int_calls', 'flavour_single_precision_calls', 'flavour_layout_calls',
+    REQUIRED_COUNTERS = ('exact_tie_links_decided', 'zero_link_duplicate_links', 'anchored_tie_links', 'tie_cases', 'wide_link_cases', 'wide_link_ge_180_cases', 'wide_link_over_16_in_one_chunk', 'dense_cases', 'dense_cases_above_512_in_one_chunk', 'boundary_ra_points', 'ra360_calls', 'flavour_calls', 'flavour_int_calls', 'flavour_single_precision_calls', 'flavour_layout_calls',
                          'flavour_args_unchanged_checks', 'flavour_multi_member_groups', 'canary_sequences', 'canary_inputs_judged', 'equal_ra_cases', 'equal_dec_cases', 'groups_spanning_chunks', 'undecided_cases', 'band_pairs_harmless', 'replicated_points', 'chunk_fof_calls', 'perm_variants',
                          'chunksize_variants', 'enforced_minimum_chunksize', 'near_threshold_links', 'seam_cases',
                          'polar_slice_cases', 'multi_member_groups', 'lattice_cases')
@@ -191,6 +191,7 @@ class C05(Check):
             'dense': len(DENSE_QUICK) if q else 4 * len(DENSE_SIZES),
             'ra360': 60 if q else 1500,
             'wide_links': 160 if q else 3000,
+            'ties': 160 if q else 4000,
             'degenerate': 240 if q else 5000,
         }
 
@@ -274,6 +275,58 @@ class C05(Check):
         ra, dec = self._shuffle(rng, ra, dec)
         case = {'L': L, 'cs': rng.choice([10.0, 30.0]), 'ra': ra, 'dec': dec}
         case['variants'] = [{'p': rng.getrandbits(32), 'cs': case['cs']}] if n <= 700 else []
+        return case
+
+    def gen_ties(self, rng, nr, i):
+        """separation == linking length exactly, where that is not a matter of rounding: linking length 0 with repeated
+        (bit-identical) entries - the exact-duplicate search; pairs anchored on the equator, (a,0)-(a,+-L), the chain
+        (a,-L),(a,0),(a,L), (0,0)-(L,0), none of them joined through shorter links.  The property says "do not exceed":
+        a tie links.  (Anchored ties are asserted only when haversine, Vincenty and chord all reproduce L bit for bit.)"""
+        kind = rng.choice(['zero_link', 'zero_link', 'anchored', 'anchored', 'dups'])
+        ra, dec = [], []
+        if kind in ('zero_link', 'dups'):
+            L = 0.0 if kind == 'zero_link' else log_uniform(rng, 1e-4, 1.0)
+            dec0 = clipdec(rng.choice(DECS) + rng.uniform(-0.4, 0.4))
+            ra0 = rng.choice([rng.uniform(0, 360), 0.0, RA_TOP])
+            nb = rng.randint(1, 25)
+            bra, bdec = cluster(nr, nb, ra0, dec0, rng.choice([1e-6, 1e-3, 0.05, 2.0]))
+            if rng.random() < 0.3:
+                bra[0], bdec[0] = rng.choice([0.0, RA_TOP, 180.0]), rng.choice([0.0, bdec[0]])
+            for j in range(nb):
+                for _ in range(rng.choice([1, 1, 2, 2, 3, 4])):
+                    ra.append(bra[j])
+                    dec.append(bdec[j])
+                if rng.random() < 0.2:                   # a near twin that is NOT a duplicate (1e-9 .. 1e-5 deg away)
+                    ra.append(bra[j])
+                    dec.append(clipdec(bdec[j] + rng.choice([-1.0, 1.0]) * 10.0 ** rng.uniform(-9, -5)))
+            if len(ra) < 2:
+                ra.append(ra[0])
+                dec.append(dec[0])
+        else:
+            L = rng.choice([0.25 * rng.randint(1, 120), 0.1 * rng.randint(1, 99), rng.choice([1.0, 2.0, 3.0, 5.0, 10.0, 30.0]),
+                            round(rng.uniform(0.01, 30.0), rng.randint(1, 6))])
+            for _ in range(rng.randint(1, 3)):
+                a = rng.choice([0.0, 200.0, 37.5, rng.uniform(0, 360), RA_TOP])
+                shape = rng.choice(['up', 'down', 'chain', 'equator'])
+                if shape == 'equator':
+                    pts = [(0.0, 0.0), (L, 0.0)]
+                elif shape == 'chain':
+                    pts = [(a, -L), (a, 0.0), (a, L)]
+                else:
+                    pts = [(a, 0.0), (a, L if shape == 'up' else -L)]
+                for q in pts:
+                    ra.append(q[0])
+                    dec.append(q[1])
+            # bystanders well away from everything (no shorter links), sometimes exactly on the equator / a meridian
+            for _ in range(rng.randint(0, 5)):
+                ra.append(rng.uniform(0, 360))
+                dec.append(rng.choice([0.0, rng.uniform(-80, 80)]))
+        ra, dec = self._shuffle(rng, ra, dec)
+        # duplicates: the field is up to 4 deg wide whatever L is, so the chunk size must not scale with a tiny L
+        cs = self._pick_cs(rng, L) if kind == 'anchored' else rng.choice([None, None, 0.5, 3.0])
+        case = {'L': L, 'cs': cs, 'ra': ra, 'dec': dec, 'kind': kind}
+        cs2 = max(L * rng.uniform(4.0, 30.0), rng.uniform(0.2, 5.0))
+        case['variants'] = [{'p': rng.getrandbits(32), 'cs': cs}, {'p': None, 'cs': cs2}]
         return case
 
     def gen_wide_links(self, rng, nr, i):
@@ -736,7 +789,14 @@ class C05(Check):
         L = float(case['L'])
         n = ra.size
         with np.errstate(all='ignore'):      # an error state left behind by an earlier call must not reach the reference
-            sure, maybe, nband, S = R.fof(ra, dec, L)       # separations cross-checked (chord vs Vincenty) inside
+            # separations cross-checked (chord vs Vincenty) inside; exact ties / duplicates are decided by the property text
+            sure, maybe, nband, S = R.fof(ra, dec, L, exact=R.exact_links(ra, dec, L))
+        if R.fof.decided_by_exact:
+            out.count('exact_tie_links_decided', R.fof.decided_by_exact)
+            if L == 0.0:
+                out.count('zero_link_duplicate_links', R.fof.decided_by_exact)
+            else:
+                out.count('anchored_tie_links', R.fof.decided_by_exact)
         out.count('reference_selfchecks')
         decided = sure == maybe
         if not decided:
@@ -789,6 +849,8 @@ class C05(Check):
             same = all(np.array_equal(np.asarray(x), np.asarray(y)) for x, y in zip(r0, r1))
             out.expect(same, 'ra360-same-as-0', 'positions %s written as RA 360.0 instead of 0.0 are grouped differently (cs=%r)'
                        % (case['ra360'], case['cs']), ingroup_ra0=r0[0], ingroup_ra360=r1[0])
+        if case.get('cls') == 'ties':
+            out.count('tie_cases')
         if case.get('cls') == 'wide_links':
             out.count('wide_link_cases')
             if L >= 180.0:
